@@ -560,8 +560,72 @@ def apply_specs(repo, res, rows, rule='SPEC'):
                 res.add(Finding(rule, fullname, meaning, f.loc,
                                 f'{f.qualname}: {meaning} - found {len(rets)} return statements: '
                                 f'{[unparse(r, 60) for r in rets][:4]}', {}))
+        elif kind == 'default':
+            pname, _, val = text.partition('=')
+            a = f.node.args
+            pos = a.posonlyargs + a.args
+            dmap = dict(zip([x.arg for x in pos[len(pos) - len(a.defaults):]], a.defaults))
+            dmap.update({x.arg: d for x, d in zip(a.kwonlyargs, a.kw_defaults) if d is not None})
+            got = dmap.get(pname.strip())
+            ok = got is not None and _safe_nf_expr(got) == nf_text(val.strip())
+            res.oblige(rule, f'{f.qualname}: {meaning}', ok, nontrivial=True, sample={'function': fullname, 'default': text})
+            if not ok:
+                res.add(Finding(rule, fullname, meaning, f.loc,
+                                f'{f.qualname}: {meaning} - the default of `{pname.strip()}` is `{unparse(got, 40) if got is not None else "<none>"}`, '
+                                f'documented `{val.strip()}`', {}))
+        elif kind == 'expr':
+            # some expression of the function (after the refactor-reversal pass, locals inlined too) has this normal form
+            from ..expr import Inliner
+            wants = [nf_text(t.strip()) for t in text.split('|||')]
+            pool = [n for n in ast.walk(f.node) if isinstance(n, ast.expr)]
+            try:
+                inl = Inliner(f.node)
+                pool += [e for e, _ in inl.returns] + [v for _t, v, _s in inl.stores] + [c for c, _o in inl.calls]
+            except Exception:
+                pass
+            ok = any(_safe_nf_expr(e) in wants for e in pool)
+            res.oblige(rule, f'{f.qualname}: {meaning}', ok, nontrivial=True, sample={'function': fullname, 'want': wants[0]})
+            if not ok:
+                res.add(Finding(rule, fullname, meaning, f.loc, f'{f.qualname}: {meaning} - no expression with normal form `{wants[0]}`', {}))
+        elif kind == 'guard':
+            # 'STATEMENT ||| atom; atom': the statement runs under exactly these enclosing conditions (none: unconditionally)
+            st_text, _, atoms_text = text.partition('|||')
+            want = nf_stmt(ast.parse(st_text.strip()).body[0])
+            allowed = {a_.strip() for a_ in atoms_text.split(';') if a_.strip()}
+            sts = [s_ for s_ in ast.walk(f.node) if isinstance(s_, (ast.Assign, ast.AugAssign, ast.Expr, ast.Return)) and _safe_nf(s_) == want]
+            got = sorted({a_ for s_ in sts for a_ in enclosing_if_atoms(s_, f.node)})
+            ok = bool(sts) and all(enclosing_if_atoms(s_, f.node) == allowed for s_ in sts)
+            res.oblige(rule, f'{f.qualname}: {meaning}', ok, nontrivial=True, sample={'function': fullname, 'conditions': got})
+            if not ok:
+                res.add(Finding(rule, fullname, meaning, f.loc,
+                                f'{f.qualname}: {meaning} - `{st_text.strip()}` ' + ('not found' if not sts else
+                                f'runs under {got}, must run under {sorted(allowed) or "no condition"}'), {}))
+        elif kind == 'order':
+            # 'A ||| B': the first call of A is evaluated before the first call of B (source order inside the function)
+            a_txt, _, b_txt = text.partition('|||')
+            order = {}
+            k_ = 0
+            for n_ in _preorder(f.node):
+                k_ += 1
+                if isinstance(n_, ast.Call):
+                    order.setdefault(unparse(n_.func, 0), k_)
+            ia, ib = order.get(a_txt.strip()), order.get(b_txt.strip())
+            ok = ia is not None and ib is not None and ia < ib
+            res.oblige(rule, f'{f.qualname}: {meaning}', ok, nontrivial=True, sample={'function': fullname, 'first': a_txt.strip(), 'then': b_txt.strip()})
+            if not ok:
+                res.add(Finding(rule, fullname, meaning, f.loc,
+                                f'{f.qualname}: {meaning} - `{a_txt.strip()}` must be called before `{b_txt.strip()}`'
+                                + ('' if ia is not None and ib is not None else ' (one of them is no longer called here)'), {}))
         else:
             raise AnalysisError(f'unknown spec kind {kind}')
+
+
+def _preorder(node):
+    """Nodes in evaluation-like source order (statements in order; within a statement, children in field order, the value
+    of an assignment before its targets is not needed here)."""
+    yield node
+    for c in ast.iter_child_nodes(node):
+        yield from _preorder(c)
 
 
 def _safe_nf_expr(e):
@@ -1341,6 +1405,13 @@ def run_generic_pack(repo, res, prop, extra_modules=()):
         r_ = fn(repo, res, scope)
         n += r_ if isinstance(r_, int) else 0
     res.notes['generic_pack_modules'] = sorted(mods)
+    from .spectable import EXTRA_SPECS, EXTRA_PATHSUMS
+    apply_specs(repo, res, EXTRA_SPECS.get(prop, []))
+    for fullname, ref_src, meaning in EXTRA_PATHSUMS.get(prop, []):
+        f = repo.functions.get(fullname)
+        if f is None:
+            raise AnalysisError(f'vanished anchor: {fullname}')
+        pathsum_spec(res, 'SPEC', f, ref_src, meaning)
     return n
 
 
